@@ -162,6 +162,8 @@ func checkC19(c *Ctx) Meta {
 	c.Rule("C19-TX", "write-transaction buckets write through their transaction only; read-only buckets cannot write; BeginTx opens a leveldb transaction; Commit/Rollback map to Commit/Discard", 12)
 	c.Rule("C19-PREFIX", "prefix scans (Clear, deleteBucket, GetByPrefix, BucketNames) iterate a prefix that ends with the separator after the complete bucket path", 8)
 	c.Rule("C19-SIBLING", "the two bucket kinds (LDBBucket / LDBReadBucket) agree operation-for-operation on innerKey, subBucket, Get, GetByPrefix, BucketNames and GetBucketMeta", 6)
+	c.Rule("C19-SUBTREE", "deleting a bucket removes its whole subtree: within one activation of the delete routine the enumeration of the bucket's sub-buckets (read from the name index) is not reachable after a descent that unlinks sub-buckets from that index", 1)
+	checkDeleteOrder(c)
 	c.Rule("C19-UPDATE", "db.Update rolls back on a closure error and returns Commit's result otherwise (shared with C12-E)", 3)
 
 	sep, _ := constVal(c, pkgLDB, "bucketPathSep")
